@@ -572,18 +572,32 @@ def ld_mult_rule(ctx):
     from ..prodnf import NotMonomial, monomial as _monomial
 
     class _CanonSizes(ast.NodeTransformer):
-        def __init__(self, x):
+        def __init__(self, x, rank=4):
             self.x = x
+            self.rank = rank
+
+        def _shape_of_x(self, e):
+            """`e` is x.shape / x.size(), or the shape of a tensor obtained from x element-wise (the outputs:
+            scale.view(1, -1, 1, 1) * x + shift.view(..) has the axes of x)"""
+            from ..rankcase import _ranked
+
+            if isinstance(e, ast.Attribute) and e.attr == "shape":
+                return _ranked(e.value, self.x, 4)
+            if isinstance(e, ast.Call) and isinstance(e.func, ast.Attribute) and e.func.attr == "size" and not e.args and not e.keywords:
+                return _ranked(e.func.value, self.x, 4)
+            return False
 
         def _dim(self, e):
             """axis number when `e` spells the size of one axis of the inputs"""
-            if is_component(e) and norm_text(e.args[0]) in ("%s.shape" % self.x, "%s.size()" % self.x):
+            from ..rankcase import _ranked
+
+            if is_component(e) and self._shape_of_x(e.args[0]):
                 return int(const_number(e.args[1]))
-            if is_component(e) and isinstance(e.args[0], ast.Call) and isinstance(e.args[0].func, ast.Name) and e.args[0].func.id == "__rest__" and norm_text(e.args[0].args[0]) in ("%s.shape" % self.x, "%s.size()" % self.x) and const_number(e.args[0].args[1]) is not None:
+            if is_component(e) and isinstance(e.args[0], ast.Call) and isinstance(e.args[0].func, ast.Name) and e.args[0].func.id == "__rest__" and self._shape_of_x(e.args[0].args[0]) and const_number(e.args[0].args[1]) is not None:
                 return int(const_number(e.args[0].args[1])) + int(const_number(e.args[1]))
-            if isinstance(e, ast.Subscript) and norm_text(e.value) in ("%s.shape" % self.x, "%s.size()" % self.x) and const_number(e.slice) is not None:
+            if isinstance(e, ast.Subscript) and self._shape_of_x(e.value) and const_number(e.slice) is not None:
                 return int(const_number(e.slice))
-            if isinstance(e, ast.Call) and isinstance(e.func, ast.Attribute) and e.func.attr == "size" and norm_text(e.func.value) == self.x and len(e.args) == 1 and const_number(e.args[0]) is not None:
+            if isinstance(e, ast.Call) and isinstance(e.func, ast.Attribute) and e.func.attr == "size" and _ranked(e.func.value, self.x, 4) and len(e.args) == 1 and const_number(e.args[0]) is not None:
                 return int(const_number(e.args[0]))
             return None
 
@@ -598,17 +612,17 @@ def ld_mult_rule(ctx):
                 tail = None
                 if last == "numel" and isinstance(f, ast.Attribute) and isinstance(f.value, ast.Subscript):
                     sub = f.value
-                    if norm_text(sub.value) in ("%s.shape" % self.x, "%s.size()" % self.x) and isinstance(sub.slice, ast.Slice) and sub.slice.upper is None and sub.slice.step is None and const_number(sub.slice.lower) is not None:
+                    if self._shape_of_x(sub.value) and isinstance(sub.slice, ast.Slice) and sub.slice.upper is None and sub.slice.step is None and const_number(sub.slice.lower) is not None:
                         tail = int(const_number(sub.slice.lower))
                     elif norm_text(sub.value) == self.x and isinstance(sub.slice, ast.Tuple) and all(const_number(i) is not None for i in sub.slice.elts):
                         tail = len(sub.slice.elts)
                 if last == "prod" and len(e.args) == 1 and isinstance(e.args[0], ast.Subscript):
                     sub = e.args[0]
-                    if norm_text(sub.value) in ("%s.shape" % self.x, "%s.size()" % self.x) and isinstance(sub.slice, ast.Slice) and sub.slice.upper is None and sub.slice.step is None and const_number(sub.slice.lower) is not None:
+                    if self._shape_of_x(sub.value) and isinstance(sub.slice, ast.Slice) and sub.slice.upper is None and sub.slice.step is None and const_number(sub.slice.lower) is not None:
                         tail = int(const_number(sub.slice.lower))
                 if tail is not None and 0 <= tail <= 4:
                     out = ast.Constant(value=1)
-                    for d in range(tail, 4):
+                    for d in range(tail, self.rank):
                         out = ast.BinOp(left=out, op=ast.Mult(), right=ast.Name(id="__axis%d__" % d, ctx=ast.Load()))
                     return out
                 # broadcasts to the batch carry no factor
@@ -642,7 +656,7 @@ def ld_mult_rule(ctx):
                 continue
             import copy
 
-            canon = _CanonSizes(xname).visit(copy.deepcopy(ld))
+            canon = _CanonSizes(xname, rank).visit(copy.deepcopy(ld))
             ast.fix_missing_locations(canon)
             try:
                 c, m = _monomial(canon)
@@ -1702,6 +1716,17 @@ def ld_orth_rule(ctx):
     return r
 
 
+def ld_at_rule(ctx):
+    """LD-AT = INV-AT (shared with C02): a transform's inverse is itself offered as a forward pass (Logit =
+    InverseTransform(Sigmoid), InverseTransform(..) of anything); its log-det is right only if it is minus
+    the forward's formula at the same point."""
+    r = inv_at_rule(ctx)
+    r.rule = "LD-AT"
+    for f in r.findings:
+        f.rule = "LD-AT"
+    return r
+
+
 def inv_layout_rule(ctx):
     """INV-LAYOUT = BM-ROWS (shared with C12): in the image code paths every permute / reshape keeps the
     axes' memory order consistent and each direction hands its outputs back laid out as the inputs --
@@ -1744,6 +1769,12 @@ def inv_round_rule(ctx):
             for idx, v in t[1][1]:
                 if idx == t[2]:
                     return v
+        # cat(u, v)[:, argsort(cat(i, j))]: u lands on the positions i, v on j (the index sets partition the features)
+        if h == "gather" and isinstance(t[2], tuple) and t[2][:1] == ("inv",) and isinstance(t[2][1], tuple) and t[2][1][:1] == ("cat",) and isinstance(t[1], tuple) and t[1][:1] == ("cat",) and len(t[1][1]) == len(t[2][1]) - 1 and t[1][2] == 1:
+            return simplify(("scatter", tuple(sorted(zip(t[2][1][1:], t[1][1])))))
+        # x[:, cat(i, j)] = cat(x[:, i], x[:, j])
+        if h == "gather" and isinstance(t[2], tuple) and t[2][:1] == ("cat",):
+            return ("cat", tuple(simplify(("gather", t[1], nm)) for nm in t[2][1:]), 1)
         if h == "scatter":
             pairs = t[1]
             if len(pairs) == 2 and all(isinstance(v, tuple) and v and v[0] == "gather" and v[2] == idx for idx, v in pairs) and len({v[1] for _, v in pairs}) == 1:
@@ -1868,7 +1899,7 @@ def ld_elem_rule(ctx):
 
 register(
     "C01",
-    [nodrop_rule, ld_shape_rule, ld_mult_rule, ld_elem_rule, ld_state_rule, ld_orth_rule],
+    [nodrop_rule, ld_shape_rule, ld_mult_rule, ld_elem_rule, ld_state_rule, ld_orth_rule, ld_at_rule],
     "LD-STATE: in every nn.Module class, a non-persistent buffer or plain tensor attribute whose constructor expression is "
     "computed from a constructor value that the same constructor stores as a parameter or persistent buffer (through local "
     "aliases and tensor wrappers) is a second copy of restorable state; if any method reads it and no method refreshes it, the "
@@ -1936,9 +1967,155 @@ def inv_state_rule(ctx):
     return res
 
 
+# ---------------------------------------------------------------------------------------
+# INV-AT (C02, C01): the inverse's log-det is minus the forward's, taken at the same point
+# ---------------------------------------------------------------------------------------
+
+
+def _replace_by_hash(e, targets, memo=None):
+    """copy of expression `e` with every sub-expression whose structural hash is in `targets` replaced"""
+    if memo is None:
+        memo = {}
+    if not isinstance(e, ast.AST):
+        return e
+    if id(e) in memo:
+        return memo[id(e)]
+    h = shash(e) if isinstance(e, ast.expr) else None
+    if h is not None and h in targets:
+        out = ast.Name(id=targets[h], ctx=ast.Load())
+        memo[id(e)] = out
+        return out
+    changed = False
+    new_fields = {}
+    for f in e._fields:
+        v = getattr(e, f, None)
+        if isinstance(v, ast.AST):
+            nv = _replace_by_hash(v, targets, memo)
+            changed |= nv is not v
+            new_fields[f] = nv
+        elif isinstance(v, list):
+            nl = [_replace_by_hash(x, targets, memo) for x in v]
+            changed |= any(a is not b for a, b in zip(nl, v))
+            new_fields[f] = nl
+        else:
+            new_fields[f] = v
+    if not changed:
+        memo[id(e)] = e
+        return e
+    out = e.__class__(**new_fields)
+    memo[id(e)] = out
+    return out
+
+
+def _arg_key(e):
+    from ..prodnf import NotMonomial, additive_terms
+    from ..canon import canon_text
+
+    try:
+        terms = additive_terms(e)
+        return repr(sorted(((str(c), repr(sorted(m.items(), key=repr))) for c, m in terms)))
+    except NotMonomial:
+        pass
+    except Exception:
+        pass
+    try:
+        return canon_text(e)
+    except Exception:
+        return norm_text(e)
+
+
+def inv_at_rule(ctx):
+    """INV-AT.  With x the forward's input and y its output, a forward returns (y, L(x, y)) and its inverse
+    (x, -L(x, y)): the *same* expression of the same point, negated.  Both log-dets are expanded, the
+    forward's input and the inverse's returned value are both named X, the forward's returned value and the
+    inverse's input both Y, and the signed leaves are paired by function: where the two directions apply one
+    and the same function with opposite signs, the arguments (monomial normal form) must agree whenever they
+    are written over the same point.  Formulas of different shape in the two directions (x in one, y in the
+    other) are not comparable here and are left to INV-SIGN."""
+    p = ctx.p
+    res = RuleResult("INV-AT", "where forward and inverse apply the same function with opposite signs in their log-dets, they apply it at the same point (forward input = inverse result, forward result = inverse input)")
+    compared = 0
+    for label, fpaths, ipaths, ff, fi in direction_pairs(p):
+        if ff is fi:
+            continue  # one function with a flag: the spline rules compare its two scenarios
+        fr = [pp for pp in fpaths if pp.kind == "return"]
+        ir = [pp for pp in ipaths if pp.kind == "return"]
+        if len(fr) != 1 or len(ir) != 1:
+            continue
+        rf, ri = fr[0].ret, ir[0].ret
+        if not (isinstance(rf, ast.Tuple) and len(rf.elts) == 2 and isinstance(ri, ast.Tuple) and len(ri.elts) == 2):
+            continue
+        xf = ff.params()[0][0] if ff.params() else None
+        xi = fi.params()[0][0] if fi.params() else None
+        if not xf or not xi:
+            continue
+        of, lf = rf.elts
+        oi, li = ri.elts
+        if any(size_upto(e, 4000) > 4000 for e in (of, lf, oi, li)):
+            continue
+        tf, ti = {}, {}
+        if not (isinstance(of, ast.Name) and of.id == xf):
+            tf[shash(of)] = "__Y__"
+        tf[shash(ast.Name(id=xf, ctx=ast.Load()))] = "__X__"
+        if not (isinstance(oi, ast.Name) and oi.id == xi):
+            ti[shash(oi)] = "__X__"
+        ti[shash(ast.Name(id=xi, ctx=ast.Load()))] = "__Y__"
+        lf2 = _replace_by_hash(lf, tf)
+        li2 = _replace_by_hash(li, ti)
+        ta, tb = ld_terms(lf2), ld_terms(li2)
+        if not ta or not tb:
+            continue
+
+        def split(terms, flip):
+            out = {}
+            for sgn, l in terms:
+                if isinstance(l, ast.Call) and not is_component(l) and l.args or (isinstance(l, ast.Call) and isinstance(l.func, ast.Attribute) and not l.args):
+                    fname = _last(l)
+                    f = l.func
+                    if isinstance(f, ast.Attribute) and not (isinstance(f.value, ast.Name) and f.value.id in ("torch", "F", "np", "math", "torchutils")):
+                        args = [f.value] + list(l.args)
+                    else:
+                        args = list(l.args)
+                    if len(args) != 1 or l.keywords:
+                        return None
+                    out.setdefault((sgn * flip, fname), []).append(args[0])
+                else:
+                    return None
+            return out
+
+        ga, gb = split(ta, 1), split(tb, -1)
+        if ga is None or gb is None or set(ga) != set(gb) or any(len(ga[k]) != len(gb[k]) for k in ga):
+            continue
+        compared += 1
+        bad = None
+        for k in sorted(ga, key=repr):
+            ka = sorted(_arg_key(a) for a in ga[k])
+            kb = sorted(_arg_key(b) for b in gb[k])
+            if ka == kb:
+                continue
+            # the differing arguments: comparable only when written over the same point
+            da = [a for a in ga[k] if _arg_key(a) not in kb]
+            db = [b for b in gb[k] if _arg_key(b) not in ka]
+            pa = {n.id for a in da for n in ast.walk(a) if isinstance(n, ast.Name) and n.id in ("__X__", "__Y__")}
+            pb = {n.id for b in db for n in ast.walk(b) if isinstance(n, ast.Name) and n.id in ("__X__", "__Y__")}
+            if pa and pa == pb and len(pa) == 1:
+                bad = (k, da, db)
+                break
+        if bad is None:
+            res.ok("%s: same functions at the same points (%d leaves)" % (label, len(ta)))
+        else:
+            (sgn, fname), da, db = bad
+            pt = {"__X__": "the forward input / inverse result", "__Y__": "the forward result / inverse input"}
+            show = lambda e: norm_text(e).replace("__X__", "x").replace("__Y__", "y")
+            res.fail(Finding("INV-AT", fi.module, fi.qualname, ir[0].ret_node, "%s: forward's log-det applies %s to `%s`, the inverse's applies it (negated) to `%s` -- with x %s and y %s these are different points, so the inverse's log-det is not minus the forward's" % (label, fname, "`, `".join(show(a) for a in da), "`, `".join(show(b) for b in db), pt["__X__"], pt["__Y__"]), construct="point at which the inverse evaluates " + fname))
+    if compared < 2:
+        raise AnalysisIncomplete("INV-AT: %d direction pairs comparable (< 2: Sigmoid and Tanh confirmed by hand)" % compared)
+    return res
+
+
 register(
     "C02",
-    [inv_sign_rule, inv_config_rule, inv_pos_rule, inv_state_rule, ld_state_rule, inv_round_rule, inv_layout_rule],
+    [inv_sign_rule, inv_config_rule, inv_pos_rule, inv_state_rule, ld_state_rule, inv_round_rule, inv_layout_rule, inv_at_rule],
     "INV-ROUND: CouplingTransform.forward is partially evaluated on a symbolic input, its result fed to inverse, and the outcome "
     "simplified with the contracts of the parts only (gather/scatter over the two index buffers, hook_inverse(hook_forward(v, p), p) "
     "= v, U^-1(U(v)) = v): it must reduce to x and the log-dets must pair up -- which features condition, in which order the parts "
@@ -1953,7 +2130,9 @@ register(
     "transform are equal, so no direction works from a private copy of the state. INV-CONFIG: SqueezeTransform's inverse guard and "
     "divisor are the same polynomial in self.factor as forward's channel multiplier. INV-POS: sign-lattice proof that every "
     "quantity built from a positivity activation is still positive where its log is taken or it divides. Round-trip error, "
-    "finiteness and root selection are value questions and are NOT decided.",
+    "finiteness and root selection are value questions and are NOT decided. INV-AT: where both directions apply the same function with "
+    "opposite signs in their log-dets, the arguments agree in monomial normal form once the forward input / inverse result and the forward "
+    "result / inverse input are identified (a log-det taken at T*x in one direction and at x in the other is reported).",
     [A_CFG, A_NET, A_UMNN, T_OPS],
 )
 
